@@ -13,7 +13,7 @@ import (
 	"verifharness/vf"
 )
 
-const rule = "Case = history of 3-18 operations on a file-backed database: CREATE TABLE of up to 8 tables with 1-6 columns of any supported type (SQL-created; catalog-created with none/skip-list; catalog-created with a unique-skip-list index on the key column (B-tree / hash tables across crash restarts are C07's subject); the same column names recur in different tables), INSERT/UPDATE/DELETE, clean restarts (Shutdown+reopen) and crash restarts (files closed without any flush, then recovery). Oracle after every restart and at the end: every created table is reachable under its name with its own schema (column count, order, types) and exactly the model rows through sequential scan and through every index (point / range plans, SQL optimizer path); rows inserted into one table never show up in another; catalog objects of distinct tables have distinct ids and distinct first heap pages. Non-trivial = at least two non-empty user tables existed at a restart and a table was created after a restart."
+const rule = "Case = history of 3-18 operations on a file-backed database: CREATE TABLE of up to 8 tables with 1-6 columns of any supported type (in 12% of the histories first 9-13 six-column tables with names of different lengths, so that the columns catalog spills to a second heap page) (SQL-created; catalog-created with none/skip-list; catalog-created with a unique-skip-list index on the key column (B-tree / hash tables across crash restarts are C07's subject); the same column names recur in different tables), INSERT/UPDATE/DELETE, clean restarts (Shutdown+reopen) and crash restarts (files closed without any flush, then recovery). Oracle after every restart and at the end: every created table is reachable under its name with its own schema (column count, order, types) and exactly the model rows through sequential scan and through every index (point / range plans, SQL optimizer path); rows inserted into one table never show up in another; catalog objects of distinct tables have distinct ids and distinct first heap pages. Non-trivial = at least two non-empty user tables existed at a restart and a table was created after a restart."
 
 var assumptions = []string{
 	"B-tree/hash/unique tables are modified only with statements their kinds document: unique keys, no UPDATE on hash-indexed tables, UPDATE/DELETE through the sequential plan",
@@ -24,7 +24,7 @@ var assumptions = []string{
 var sess *vf.Session
 
 func opts() restarteng.GenOpts {
-	o := restarteng.GenOpts{Crash: true, MaxTables: 8, MaxCols: 6, SpecialKind: []string{dbh.IdxUniqSkip}, Prof: sqlgen.Profile{MaxStr: 60}}
+	o := restarteng.GenOpts{Crash: true, MaxTables: 8, MaxCols: 6, SpecialKind: []string{dbh.IdxUniqSkip}, Prof: sqlgen.Profile{MaxStr: 60}, ManyTablesPct: 12}
 	if sess != nil && sess.ExclusionOn("null-in-indexed-column") {
 		o.Prof.NoNullIndexed = true
 	}
